@@ -9,6 +9,112 @@ from vlib import core, gokernel
 GOROOT_TOKEN = None
 
 
+MARK_PROGRAM = '''package main
+
+//go:noinline
+func mark(s string) int { return len(s) }
+
+type T struct{ a, b int }
+
+func two(f func(), n int) int { f(); return n }
+
+func main() {
+	x := mark("M1")                                   //@ M1
+	if mark("M2") > 0 {                               //@ M2
+		x += mark("M3")                               //@ M3
+	}
+	for i := 0; i < mark("M4"); i += mark("M5") {     //@ M4 M5
+		x++
+	}
+	y := two(func() {                                 //@stmt S1
+		mark("M6")                                    //@ M6
+	}, mark("M7"))                                    //@cont S1 M7
+	func() {                                          //@stmt S2
+		mark("M8")                                    //@ M8
+	}()
+	x += mark("M9")                                   //@ M9
+	defer two(func() {                                //@stmt S3
+		mark("M10")                                   //@ M10
+	}, mark("M11"))                                   //@cont S3 M11
+	t := T{                                           //@stmt S4
+		a: mark("M12"),                               //@cont S4 M12
+		b: mark("M13"),                               //@cont S4 M13
+	}
+	switch mark("M14") {                              //@ M14
+	case 3:
+		x = mark("M15")                               //@ M15
+	}
+	c := make(chan int, 1)
+	go two(func() { c <- mark("M16") }, mark("M17"))  //@ M16 M17
+	println(x, y, t.a, <-c,                           //@stmt S5
+		mark("M18"))                                  //@cont S5 M18
+}
+'''
+
+
+def mapping_observations():
+    """Plain observations on the real toolchain (no solver): for a marker program built with source maps, with and without -m,
+    every marker's generated position must map to the first line of the Go statement that produced it (or to the line the marker
+    itself is written on, or to no Go position), and every mapping must be in range on both sides."""
+    from vlib import srcmap
+    import re
+    src_lines = MARK_PROGRAM.split('\n')
+    want = {}      # marker -> (statement first line, own line), 1-based
+    labels = {}
+    for i, ln in enumerate(src_lines, 1):
+        m = re.search(r'//@(?:(stmt|cont) (S\d+))?((?: M\d+)*)\s*$', ln)
+        if not m:
+            continue
+        kind, label = m.group(1), m.group(2)
+        if kind == 'stmt':
+            labels[label] = i
+        first = labels[label] if kind == 'cont' else i
+        for mk in m.group(3).split():
+            want[mk] = (first, i)
+    out = {'programs': 0, 'markers_checked': 0, 'exact': 0, 'unmapped': 0, 'mappings_in_range': 0, 'failures': []}
+    for minify in (False, True):
+        d = os.path.join(core.scratch(), 'C19obs_%d' % int(minify))
+        core.write_pkg(d, {'main.go': MARK_PROGRAM})
+        okb, js = core.compile_js(d, minify=minify)
+        out['programs'] += 1
+        if not okb:
+            out['failures'].append({'minify': minify, 'error': 'build failed: ' + js[-300:]})
+            continue
+        text = open(js).read()
+        if '\b' in text:
+            out['failures'].append({'minify': minify, 'error': 'the emitted JavaScript contains a source-map hint byte'})
+        glines = text.split('\n')
+        sources, lines = srcmap.load(js + '.map')
+        nsrc = len(src_lines)
+        for gl, segs in lines.items():
+            for (gc, si, sl, sc) in segs:
+                if gl >= len(glines) or gc > len(glines[gl]):
+                    out['failures'].append({'minify': minify, 'error': 'mapping outside the generated file: line %d col %d' % (gl + 1, gc)})
+                elif si is not None and sources[si].endswith('main.go') and not (0 <= sl < nsrc):
+                    out['failures'].append({'minify': minify, 'error': 'mapping to a line that does not exist in main.go: %d' % (sl + 1)})
+                else:
+                    out['mappings_in_range'] += 1
+        for mk, (stmt_line, own_line) in sorted(want.items()):
+            pos = [(i, l.find('"%s"' % mk)) for i, l in enumerate(glines) if '"%s"' % mk in l]
+            if len(pos) != 1:
+                out['failures'].append({'minify': minify, 'marker': mk, 'error': 'marker occurs %d times in the output' % len(pos)})
+                continue
+            seg = srcmap.lookup_global(lines, pos[0][0], pos[0][1])
+            out['markers_checked'] += 1
+            if seg is None or seg[1] is None:
+                out['unmapped'] += 1
+                continue
+            if not sources[seg[1]].endswith('main.go'):
+                out['failures'].append({'minify': minify, 'marker': mk, 'error': 'maps to another file: %s' % sources[seg[1]]})
+            elif seg[2] + 1 == stmt_line or seg[2] + 1 == own_line:
+                out['exact'] += 1
+            else:
+                out['failures'].append({'minify': minify, 'marker': mk, 'error': 'generated code of the statement starting at main.go:%d (marker on line %d) maps to main.go:%d' % (stmt_line, own_line, seg[2] + 1)})
+    if out['markers_checked'] and out['exact'] * 2 < out['markers_checked']:
+        out['failures'].append({'error': 'fewer than half of the markers have a Go position at all'})
+    return out
+
+
 def main():
     tier = core.tier()
     goroot = core.run(['go', 'env', 'GOROOT']).stdout.strip()
@@ -17,7 +123,8 @@ def main():
                         stubs=[('(*github.com/gopherjs/gopherjs/internal/sourcemapx.Hint).Unpack', 'VStub_Unpack'), ('(*go/token.FileSet).Position', 'VStub_Position')],
                         native_patches=[(os.path.join(core.REPO, 'internal/sourcemapx/hint.go'), 'func (h *Hint) Unpack() (any, error) {', 'func (h *Hint) Unpack() (any, error) {\n\tif true {\n\t\treturn VStub_Unpack(h)\n\t}'),
                                         (os.path.join(goroot, 'src/go/token/position.go'), 'func (s *FileSet) Position(p Pos) (pos Position) {', 'func (s *FileSet) Position(p Pos) (pos Position) {\n\tif true {\n\t\treturn Position{Offset: int(p)}\n\t}')])
-    rc, ev = gokernel.run_kernels('C19', [k], tier,
+    obs = mapping_observations() if not os.environ.get('VERIF_ONLY') else {}
+    rc, ev = gokernel.run_kernels('C19', [k], tier, extra={'compiler_mapping_observations': obs}, write=False,
                                   title='Filter.Write / FindHint / ReadHint / Hint.WriteTo on all byte streams and chunkings within the bounds',
                                   bounds={'chunk (one Write call)': 'quick: <= 2 hints with <= 1 code byte per segment and <= 1 payload byte, and <= 1 hint with <= 2 code bytes per segment and <= 2 payload bytes; thorough: <= 2 hints, <= 2 code bytes per segment, <= 2 payload bytes; every byte value (code bytes differ from the magic byte, payload bytes are unrestricted)',
                                           'filter state': 'arbitrary (symbolic) line and column before the call, so the one-step result composes to streams and chunkings of any length built from such chunks; chunk boundaries never cut a hint',
@@ -25,6 +132,21 @@ def main():
                                   explanation='symbolic execution (go/ssa) of the real Filter.Write/ReadHint/WriteTo code; the property is asserted against a plain rescan of the stream inside the harness',
                                   harness_re='^VHarness_' if tier == 'quick' else '^VHarness',
                                   budgets={'maxseconds': 600 if tier == 'quick' else 3000, 'maxpaths': 400000})
+    if obs.get('failures'):
+        d = os.path.join(core.VERIF, 'evidence', 'replay', 'C19', 'mapping_observation')
+        os.makedirs(d, exist_ok=True)
+        with open(os.path.join(d, 'main.go'), 'w') as f:
+            f.write(MARK_PROGRAM)
+        with open(os.path.join(d, 'failures.json'), 'w') as f:
+            import json
+            json.dump(obs['failures'], f, indent=1)
+        print('VIOLATION property=C19 replay=%s' % d)
+        for fl in obs['failures'][:5]:
+            print('  source-map observation: %s' % fl)
+        ev['violations'] += 1
+        rc = 1
+    if not os.environ.get('VERIF_NO_EVIDENCE'):
+        core.write_evidence('C19', ev)
     return rc
 
 
